@@ -1410,4 +1410,29 @@ theorem defForward_le_one_alpha (t : Lookup2d) (hwf0 : t.ax0.WF) (hwf1 : t.ax1.W
         rw [div_le_one₀ hpos']
         exact hle
 
+/-! ### Ids only label the matrix -/
+
+theorem mkFrame_vals (mode : Mode) (qi ti qi' ti' : List Int) (res : List (List Score)) :
+    (mkFrame mode qi ti res).vals = (mkFrame mode qi' ti' res).vals := by
+  unfold mkFrame; split <;> rfl
+
+/-- The values of the definition's frame are a function of the point clouds alone. -/
+theorem defNblast_vals_congr (fn : ScoreFn) (cfg : Cfg) (q q' t t' : List Dotprops) (mode : Mode)
+    (hq : q.map (·.pts) = q'.map (·.pts)) (ht : t.map (·.pts) = t'.map (·.pts)) :
+    (defNblast fn cfg q t mode).map (·.vals) = (defNblast fn cfg q' t' mode).map (·.vals) := by
+  unfold defNblast
+  have e : ∀ (a b : List Dotprops), (a.map fun qn => allSome (b.map fun tn => defScore fn cfg qn.pts tn.pts mode)) =
+      ((a.map (·.pts)).map fun qc => allSome ((b.map (·.pts)).map fun tc => defScore fn cfg qc tc mode)) := by
+    intro a b; simp [List.map_map, Function.comp_def]
+  rw [e q t, e q' t', hq, ht]
+  cases allSome ((q'.map (·.pts)).map fun qc => allSome ((t'.map (·.pts)).map fun tc => defScore fn cfg qc tc mode)) with
+  | none => rfl
+  | some res => simp only [Option.map_some]; rw [mkFrame_vals]
+
+theorem selfHits_congr (fn : ScoreFn) (ua : Bool) (q q' : List Dotprops) (h : q.map (·.pts) = q'.map (·.pts)) :
+    allSome (q.map fun n => selfHit fn ua n.pts) = allSome (q'.map fun n => selfHit fn ua n.pts) := by
+  have e : ∀ a : List Dotprops, (a.map fun n => selfHit fn ua n.pts) = (a.map (·.pts)).map (selfHit fn ua) := by
+    intro a; simp [List.map_map, Function.comp_def]
+  rw [e q, e q', h]
+
 end Navis.Nblast
